@@ -498,6 +498,20 @@ func bvBin(op string, a, b *Term) *Term {
 		if a == b {
 			return BVConst(w, 0)
 		}
+		// (x + c1) - (x + c2) = c1 - c2 ; (x + c) - x = c ; x - (x + c) = -c
+		{
+			ax, ac := a, BVConst(w, 0)
+			if a.Op == "bvadd" && a.Args[1].Const {
+				ax, ac = a.Args[0], a.Args[1]
+			}
+			bx, bc := b, BVConst(w, 0)
+			if b.Op == "bvadd" && b.Args[1].Const {
+				bx, bc = b.Args[0], b.Args[1]
+			}
+			if ax == bx && !(a.Const || b.Const) {
+				return bvBin("bvsub", ac, bc)
+			}
+		}
 		if b.Const {
 			return bvBin("bvadd", a, BVNeg(b))
 		}
